@@ -723,16 +723,16 @@ func (e *Enc) appendBuiltin(st *State, c *ssa.CallCommon, ins ssa.Instruction) V
 		q := fmt.Sprintf("qi_%d", e.n)
 		qi := Term{q, SInt}
 		// kept prefix
-		e.assume(st.reach, Term{fmt.Sprintf("(forall ((%s Int)) (! (=> (and (<= 0 %s) (< %s %s)) (= (select %s (+ %s %s)) (select %s (+ %s %s)))) :pattern ((select %s (+ %s %s)))))",
+		e.assume(st.reach, Term{fmt.Sprintf("(forall ((%s Int)) (! (=> (and (<= 0 %s) (< %s %s)) (= (select %s (eix %s %s)) (select %s (eix %s %s)))) :pattern ((select %s (eix %s %s)))))",
 			q, q, q, sLen.S, A.S, rOff.S, q, oldS.S, sOff.S, q, A.S, rOff.S, q), SBool})
 		// appended elements
 		if !tIsStr {
 			oldT := e.def("oldt", Select(h, app(SInt, "sl_base", t)))
 			tOff := app(SInt, "sl_off", t)
-			e.assume(st.reach, Term{fmt.Sprintf("(forall ((%s Int)) (! (=> (and (<= 0 %s) (< %s %s)) (= (select %s (+ %s %s %s)) (select %s (+ %s %s)))) :pattern ((select %s (+ %s %s %s)))))",
+			e.assume(st.reach, Term{fmt.Sprintf("(forall ((%s Int)) (! (=> (and (<= 0 %s) (< %s %s)) (= (select %s (eix %s (+ %s %s))) (select %s (eix %s %s)))) :pattern ((select %s (eix %s (+ %s %s))))))",
 				q, q, q, tLen.S, A.S, rOff.S, sLen.S, q, oldT.S, tOff.S, q, A.S, rOff.S, sLen.S, q), SBool})
 			// common special case: exactly one element appended
-			e.assume(st.reach, Imp(Eq(tLen, I(1)), Eq(Select(A, Add(rOff, sLen)), Select(oldT, tOff))))
+			e.assume(st.reach, Imp(Eq(tLen, I(1)), Eq(Select(A, e.eix(rOff, sLen)), Select(oldT, e.eix(tOff, I(0))))))
 		}
 		// in place: everything outside the appended window is unchanged
 		e.assume(st.reach, Imp(inplace, Term{fmt.Sprintf("(forall ((%s Int)) (! (=> (or (< %s (+ %s %s)) (>= %s (+ %s %s))) (= (select %s %s) (select %s %s))) :pattern ((select %s %s))))",
